@@ -60,6 +60,14 @@ CHECKS = {
              "(statements are pure functions of their named inputs), not solved.",
         note="Trusted: CrossHair's model of Python (networkx runs under tracing after a concrete warm-up), hand-built AST shapes. N>=5 and UDO/ruleset definitions are outside.",
         ref="3 C12"),
+    "C13": dict(
+        technique="CrossHair symbolic execution of the real ds_structure schedule and the real execute_queries/load/cleanup control flow with recording stubs, over a symbolic reference relation",
+        text="Which statement reads whose result, which statements read the second global input, and (per shard) the persistent flags and return_only_persistent are symbolic; the real "
+             "DAGAnalyzer.ds_structure computes the schedule and the real execute_queries / load_scheduled_datasets / cleanup_scheduled_datasets run against event-recording stubs. The event "
+             "log is checked against an abstract table store: every read finds its inputs live, each input is loaded once, nothing is released twice or before its last reader, statements run "
+             "in DAG order and the returned keys are exactly the persistent assignments (or all). Complete for N=3 (quick; N=4 thorough).",
+        note="Stubs (part of the claim): conn.execute, load_datapoints_duckdb, register_dataframes, fetch_result, initialize_time_types record events and never fail. Trusted: CrossHair.",
+        ref="3 C13"),
     "C30": dict(
         technique="CrossHair symbolic execution of the real set_decimal_config/_parse_env_value with the environment as symbolic integers",
         text="Partial. Decides, for every integer -5..45 (and 'not defined') of both variables at once, that a setting is accepted exactly when documented, "
